@@ -25,7 +25,10 @@ RULE = ("seeded generator. (a) sequential call sequences (15-45 calls) on the re
         "opened after it (7 directed scripts per run + random ones); observed per step: every LogTraffic/LogOnlineState call at the logger "
         "boundary, delivery at the far end, whether a proxy attempt on the connection still succeeds, GET /online; verdict: refused exactly "
         "once, nothing forwarded, connection closed by the server, one offline notification, listing drops the user, totals conserved; the "
-        "observed event sequence is replayed on the world model of model/C15_Sites.v. "
+        "observed event sequence is replayed on the world model of model/C15_Sites.v. Scripts also open raw HTTP/3 connections that send 2-3 "
+        "auth requests on ONE QUIC connection, concurrently against an authenticator with a rendezvous delay (so the handlers overlap if the "
+        "server lets them) or one by one, some with rejected credentials: one online notification, GET /online counts the connection once "
+        "while it is there and not at all after it is closed (2 directed scripts per run + random ones). "
         "Non-trivial = a sequence with a refused report and >= 2 snapshots, a history with really overlapping calls, a stress run with clears, "
         "an e2e run with a refusal.")
 ASSUMPTIONS = [
@@ -264,6 +267,27 @@ TCP_N = [1, 100, 1000, 5000, 40000]
 UDP_N = [1, 16, 100, 500, 1000]  # one datagram, below every path MTU (no fragmentation: one report per datagram)
 
 
+def auth_proto():
+    """wire constants of the hysteria auth request, read from the tree under test (core/internal/protocol is not
+    importable from the harness package)"""
+    import os
+    import re
+    d = {"host": "hysteria", "path": "/auth", "hauth": "Hysteria-Auth", "hccrx": "Hysteria-CC-RX", "hpad": "Hysteria-Padding", "status": 233}
+    try:
+        src = open(os.path.join(common.REPO, "core/internal/protocol/http.go")).read()
+        for key, name in (("host", "URLHost"), ("path", "URLPath"), ("hauth", "RequestHeaderAuth"), ("hccrx", "CommonHeaderCCRX"),
+                          ("hpad", "CommonHeaderPadding")):
+            m = re.search(r'\b%s\s*=\s*"([^"]*)"' % name, src)
+            if m:
+                d[key] = m.group(1)
+        m = re.search(r"\bStatusAuthOK\s*=\s*(\d+)", src)
+        if m:
+            d["status"] = int(m.group(1))
+    except Exception:
+        pass
+    return d
+
+
 class E2EScript:
     """builds an e2e script and tracks what the property says must happen (which connections are left, which kicks
     are pending, which flows can carry a datagram back)"""
@@ -273,6 +297,7 @@ class E2EScript:
         self.steps, self.slots, self.flows = [], {}, {}   # slots: slot -> id; flows: flow -> [slot, kind, has_up]
         self.nslot = self.nflow = 0
         self.pending = set()
+        self.raws = {}        # raw HTTP/3 connections: slot -> id
 
     def connect(self, i):
         self.steps.append({"a": "connect", "slot": self.nslot, "id": i})
@@ -283,6 +308,19 @@ class E2EScript:
     def reject(self):
         self.steps.append({"a": "reject", "slot": 99, "id": 0})
 
+    def rawauth(self, i, reqs, conc):
+        """a raw HTTP/3 connection that sends len(reqs) auth requests ("ok" / "bad" credentials) for user i on ONE QUIC
+        connection, concurrently (against an authenticator with a rendezvous delay, so they overlap if the server lets
+        them) or one after the other.  With at least one "ok" it is one more connection of user i; it can only be closed."""
+        if "ok" in reqs:
+            slot = self.nslot
+            self.nslot += 1
+            self.raws[slot] = i
+        else:
+            slot = 98
+        self.steps.append({"a": "rawauth", "slot": slot, "id": i, "reqs": list(reqs), "conc": bool(conc), "proto": auth_proto()})
+        return slot
+
     def drop(self, s):
         del self.slots[s]
         for f in [f for f, v in self.flows.items() if v[0] == s]:
@@ -290,7 +328,10 @@ class E2EScript:
 
     def close(self, s):
         self.steps.append({"a": "close", "slot": s})
-        self.drop(s)
+        if s in self.raws:
+            del self.raws[s]
+        else:
+            self.drop(s)
 
     def kick(self, i, twice=False):
         for _ in range(2 if twice else 1):
@@ -369,6 +410,37 @@ def gen_e2e_directed(rng):
     return out
 
 
+def gen_e2e_multi_auth(rng):
+    """several auth requests on ONE QUIC connection (2-3 concurrent ones against a slow authenticator, sequential ones,
+    mixed with rejected credentials), next to ordinary connections of the same and of another user: the listing counts
+    the connection once while it is there and not at all once it is gone"""
+    out = []
+    for variant in range(2):
+        sc = E2EScript(rng, rng.choice(["", "s3cret"]), ["alice", "bob"])
+        r1 = sc.rawauth(0, ["ok"] * (2 + variant), True)            # 2 / 3 concurrent auths, nobody else online
+        sc.close(r1)                                                  # ... and the user is gone from the listing
+        a = sc.connect(0)
+        b = sc.connect(1)
+        r2 = sc.rawauth(0, ["ok"] * rng.choice([2, 3]) + (["bad"] if rng.random() < 0.5 else []), True)   # alice: 2 connections
+        r3 = sc.rawauth(1, ["ok", "ok"] + (["ok"] if variant else []), rng.random() < 0.7)
+        sc.rawauth(1, ["bad"] * rng.choice([1, 2]), True)            # rejected: no connection
+        f = sc.new_flow(a, rng.choice(["tcp", "udp"]))
+        sc.move(f, "up")
+        if variant:
+            sc.close(a)
+            sc.close(r2)
+        else:
+            sc.close(r2)
+            sc.kick(0)
+            sc.move(f, "up")                                          # the stock client is kicked out; alice is gone
+        r4 = sc.rawauth(1, ["ok", "bad", "ok"], False)              # sequential: "already authenticated"
+        sc.close(r3)
+        sc.close(b)
+        sc.close(r4)
+        out.append(sc.case())
+    return out
+
+
 def gen_e2e(rng):
     """script for a real server + real clients over loopback"""
     pool = rng.sample(["alice", "bob", "carol"], rng.randint(1, 3))
@@ -386,11 +458,14 @@ def gen_e2e(rng):
                     want = None
                     continue
         if not sc.slots or r < 0.25:
-            sc.connect(rng.randrange(n))
+            if rng.random() < 0.25:
+                sc.rawauth(rng.randrange(n), ["ok"] * rng.choice([1, 2, 2, 3]) + ["bad"] * rng.choice([0, 0, 1]), rng.random() < 0.8)
+            else:
+                sc.connect(rng.randrange(n))
         elif r < 0.32:
             sc.reject()
         elif r < 0.45:
-            sc.close(rng.choice(list(sc.slots)))
+            sc.close(rng.choice(list(sc.slots) + list(sc.raws)))
         elif r < 0.8:
             s = rng.choice(list(sc.slots))
             i = sc.slots[s]
@@ -416,8 +491,17 @@ def e2e_term(c, o):
     terms = []
     for st, ob in zip(c["steps"], obs):
         a, res = st["a"], ob["result"]
-        for i in ob.get("ups") or []:
-            terms.append("WE (EAuth %d) WUnit" % i)
+        if a == "rawauth":
+            # one connection whatever the number of accepted requests: the first to enter the handler authenticates,
+            # every other request answered StatusAuthOK found the connection authenticated
+            okst = st["proto"]["status"]
+            if res == "ok":
+                terms.append("WE (EAuth %d) WUnit" % st["id"])
+                for _ in range(sum(1 for x in ob.get("auths") or [] if x == okst) - 1):
+                    terms.append("WE (EAuthAgain %d %d) WUnit" % (st["slot"], st["id"]))
+        else:
+            for i in ob.get("ups") or []:
+                terms.append("WE (EAuth %d) WUnit" % i)
         if a == "close" and res == "ok":
             terms.append("WE (EClientClose %d) WUnit" % st["slot"])
         elif a == "kick":
@@ -448,6 +532,7 @@ def gen(rng, tier):
     cases = gen_seq_directed(rng)
     for _ in range(1 if tier == "quick" else 3):
         cases += gen_e2e_directed(rng)
+        cases += gen_e2e_multi_auth(rng)
     for _ in range(10 if tier == "quick" else 60):
         cases.append(gen_e2e(rng))
     for _ in range(160 * scale):
@@ -535,7 +620,8 @@ def klass(c, o):
         return "lin:overlap=" + ("0" if ov == 0 else "1-5" if ov <= 5 else "6-20" if ov <= 20 else ">20")
     if c["k"] == "e2e":
         sites = e2e_refusal_sites(c, o)
-        return "e2e:" + ("refusal@" + "+".join(sites) if sites else "no-refusal")
+        multi = any(st["a"] == "rawauth" and st["conc"] and st["reqs"].count("ok") > 1 for st in c["steps"])
+        return "e2e:" + ("refusal@" + "+".join(sites) if sites else "no-refusal") + ("+concurrent-auths-on-one-conn" if multi else "")
     return "stress:clears=%s,refused=%s" % ("0" if not o.get("clears") else ">0", "0" if not o.get("refused") else ">0")
 
 
